@@ -455,3 +455,7 @@ def run(rep: Report, prog: Program, tier: str) -> None:
     # ---------------- C06-POLICY (rules/C13life.py): per-channel reliability parameters at the hand-over to _send()
     from .C13life import run_policy
     run_policy(rep, prog, PROP, "C06-POLICY")
+
+    # ---------------- C06-SERIAL: TSNs and stream sequence numbers wrap; FORWARD-TSN pruning and the advanced-peer-ack point compare them (C17 rule set on this module)
+    from .common import serial_subrule
+    serial_subrule(rep, prog, tier, PROP, "C06-SERIAL", ["rtcsctptransport"], 30, "serial-number discipline (C17 rule set) in rtcsctptransport.py")
